@@ -157,11 +157,48 @@ package slip
 //@   foreach k in 0..255
 //@   assert fcstab[k] == fcs_byte(uint16(k))
 //@   property C25
+// fcs_fold(v, a, o, n): the checksum register after the n bytes a[o .. o+n), starting from v (defined by
+// recursion; the step is stated over two existing terms).
+//@ spec (declare-fun fcs_fold ((_ BitVec 16) (Array (_ BitVec 64) (_ BitVec 8)) (_ BitVec 64) (_ BitVec 64)) (_ BitVec 16))
+//@ axiom forall v uint16, a (Array (_ BitVec 64) (_ BitVec 8)), o uint64 {fcs_fold(v, a, o, 0)} :: fcs_fold(v, a, o, 0) == v
+//@ axiom forall v uint16, a (Array (_ BitVec 64) (_ BitVec 8)), o uint64, i uint64, j uint64 {fcs_fold(v, a, o, i), fcs_fold(v, a, o, j)} :: j == i+1 ==> fcs_fold(v, a, o, j) == fcs_next(fcs_fold(v, a, o, i), a[o+i])
 //@ func CalcFcs16WithInit
-//@   loop 0 unroll 3
-//@   requires len(data) <= 2
-//@   ensures[len0] len(data) == 0 ==> result == initialFcs
-//@   ensures[len1] len(data) == 1 ==> result == fcs_next(initialFcs, data[0])
-//@   ensures[len2] len(data) == 2 ==> result == fcs_next(fcs_next(initialFcs, data[0]), data[1])
+//@   loop 0 invariant initialFcs == fcs_fold(old(initialFcs), arr(data), off(data), uint64(rangeindex+1))
+//@   ensures[fold] result == fcs_fold(initialFcs, arr(data), off(data), uint64(len(data)))
+//@   safe
+//@   property C25
+//@ func CalcFcs16
+//@   ensures[fold] result == fcs_fold(0xffff, arr(data), off(data), uint64(len(data)))
+//@   safe
+//@   property C25
+// the first bytes: the recurrence unfolded (what the general statement means for 0, 1 and 2 bytes)
+//@ lemma fcs_fold_small
+//@   forall v uint16, d []byte
+//@   let r := CalcFcs16WithInit(v, d)
+//@   assert fcs_fold(v, arr(d), off(d), 0) == v
+//@   assert fcs_fold(v, arr(d), off(d), 1) == fcs_next(v, arr(d)[off(d)])
+//@   assert fcs_fold(v, arr(d), off(d), 2) == fcs_next(fcs_next(v, arr(d)[off(d)]), arr(d)[off(d)+1])
+//@   assert len(d) == 0 ==> r == v
+//@   assert len(d) == 1 ==> r == fcs_next(v, d[0])
+//@   assert len(d) == 2 ==> r == fcs_next(fcs_next(v, d[0]), d[1])
+//@   property C25
+
+// AppendFcs16: the one's complement of the checksum, least significant byte first, behind the unchanged data
+//@ func AppendFcs16
+//@   ensures[len]    len(result) == len(data) + 2
+//@   ensures[prefix] forall j int :: 0 <= j && j < len(data) ==> result[j] == old(data[j])
+//@   ensures[lo]     result[len(data)] == uint8((fcs ^ 0xffff) & 0xff)
+//@   ensures[hi]     result[len(data)+1] == uint8((fcs ^ 0xffff) >> 8)
+//@   modifies data[len(data):len(data)+2]
+//@   appendfacts
+//@   safe
+//@   property C25
+//@ func RemoveFcs16
+//@   requires len(dataWithCrc) >= 2
+//@   ensures[strip] len(result) == len(dataWithCrc) - 2 && (forall j int :: 0 <= j && j < len(result) ==> result[j] == dataWithCrc[j])
+//@   safe
+//@   property C25
+//@ func CheckFsc16
+//@   ensures[good] result == (fcs_fold(0xffff, arr(dataWithCrc), off(dataWithCrc), uint64(len(dataWithCrc))) == 0xf0b8)
 //@   safe
 //@   property C25
